@@ -31,9 +31,10 @@ def run(report, db, tier):
         'non-raising lookups, that each axis adds under its protocol flag '
         'bit and overwrites otherwise with angles wrapped last, the index '
         'arithmetic of map patches, the closures of the alias factories, '
-        'and that eq/hash enumerate the same slots.  Tracker state after a '
-        'history, name_from_value round trips and numeric vector results '
-        'are value-level and NOT decided.')
+        'and that eq/hash enumerate the same slots; name_from_value is '
+        'folded over its whole finite domain (every enum of the library, '
+        'flag values 0..255).  Tracker state after a history, generated '
+        'enums and numeric vector results are value-level and NOT decided.')
     F = Folder(db)
     cg = CallGraph(db)
     S = pathsum.PathSum(db, cg, inline_pred=pathsum.known_unit_pred())
@@ -43,6 +44,7 @@ def run(report, db, tier):
     aliases(report, db)
     alias_sites(report, db)
     records(report, db, S)
+    flag_names(report, db, F)
     from .. import shared
     R7 = report.rule('R20.7', 'tracker objects share no state: no mutable '
                      'default argument value is kept or changed')
@@ -668,6 +670,122 @@ def aliases(report, db, S=None):
                          'getter, setter and deleter of the multi-alias do '
                          'not enumerate the same names (%s then %s) in the '
                          'same order on self' % (pos, kws))
+
+
+# ---------------------------------------------------------------------------
+def flag_names(report, db, F):
+    """name_from_value folded over the finite domain the property quantifies
+    over: every enum class of the library, for flag enums every value
+    0..255, for plain enums every declared value and a few undeclared ones.
+    The function is a pure function of class-level constants and its
+    argument, so folding it is exact; generated enums are not covered."""
+    from ..fold import FuncVal, Opaque
+    R = report.rule('R20.8', 'the name printed for a flag value names flags '
+                    'whose union is that value, a value that is a union of '
+                    'flags has a name, and a plain enum value is named by a '
+                    'member holding it (name_from_value folded over every '
+                    'enum of the library)')
+    base = db.get_class(ENUM, 'Enum')
+    bits = db.get_class(ENUM, 'BitFieldEnum')
+    if base is None or bits is None:
+        raise AnalysisError('Enum / BitFieldEnum vanished from %s' % ENUM)
+    n = 0
+    nenum = 0
+    for ci in db.classes:
+        mro = db.mro(ci)
+        if base not in mro or ci in (base, bits):
+            continue
+        if getattr(ci, 'outer_func', None) is not None:
+            continue    # made per call from run-time data (EntityType)
+        fi = db.find_method(ci, 'name_from_value')
+        if fi is None:
+            raise AnalysisError('%s has no name_from_value' % ci.qualname)
+        members = {}
+        for name, defs in ci.attrs.items():
+            if not name.isupper() or defs[-1].kind != 'assign':
+                continue
+            v = F.class_attr(ClassVal(ci), name, ci.node, ci.module, own=ci)
+            if isinstance(v, Opaque):
+                raise AnalysisError('member %s.%s does not fold'
+                                    % (ci.qualname, name))
+            members[name] = v
+        if not members:
+            continue
+        nenum += 1
+
+        def name_of(v):
+            try:
+                r = F.call_func(FuncVal(fi, bound=ClassVal(ci)), [v], {},
+                                fi.node, Env(fi.module))
+            except FoldRaise as e:
+                raise AnalysisError('%s.name_from_value(%r) raises %s in the '
+                                    'fold' % (ci.qualname, v, e), fi.node,
+                                    rel(fi.path))
+            if isinstance(r, Opaque):
+                raise AnalysisError('%s.name_from_value(%r) does not fold'
+                                    % (ci.qualname, v), fi.node, rel(fi.path))
+            return r
+        probs = []
+        if bits in mro:
+            flags = {k: v for k, v in members.items()
+                     if isinstance(v, int) and not isinstance(v, bool)}
+            for v in range(256):
+                n += 1
+                r = name_of(v)
+                cover = 0
+                for fv in flags.values():
+                    if fv | v == v:
+                        cover |= fv
+                if r is None:
+                    if cover == v and (v != 0 or 0 in flags.values() or True):
+                        probs.append((v, 'has no name although it is a '
+                                      'union of declared flags'))
+                    continue
+                if not isinstance(r, str):
+                    probs.append((v, 'is named %r' % (r,)))
+                    continue
+                if r == '0' and '0' not in flags:
+                    if v != 0:
+                        probs.append((v, "is named '0'"))
+                    continue
+                parts = r.split('|')
+                if any(p_ not in flags for p_ in parts):
+                    probs.append((v, 'is named %r, which has a part that is '
+                                  'no flag of the class' % r))
+                    continue
+                back = 0
+                for p_ in parts:
+                    back |= flags[p_]
+                if back != v:
+                    probs.append((v, 'is named %r, which parses back to %d'
+                                  % (r, back)))
+        else:
+            vals = list(members.values())
+            extra = [x for x in (-1, 0, 1, 255, 'x', None)
+                     if not any(x == m and type(x) is type(m) for m in vals)]
+            for v in vals:
+                n += 1
+                r = name_of(v)
+                if r not in members or members[r] != v:
+                    probs.append((v, 'is named %r' % (r,)))
+            for v in extra:
+                n += 1
+                if any(v == m for m in vals):
+                    continue
+                r = name_of(v)
+                if r is not None:
+                    probs.append((v, 'is no member but is named %r' % (r,)))
+        if probs:
+            v, msg = probs[0]
+            report.violation(
+                R, 'flag-name:%s' % ci.qualname, fi.path, fi.node,
+                fi.qualname, '%s: value %r %s (%d value(s) of this enum '
+                'misnamed, e.g. %s)' % (ci.qualname, v, msg, len(probs),
+                                        [p_[0] for p_ in probs[:6]]))
+        else:
+            report.ok(R, '%s: %d members' % (ci.qualname, len(members)))
+    report.floor('enum classes folded', nenum, 10)
+    report.floor('name_from_value evaluations', n, 3 * 256)
 
 
 # ---------------------------------------------------------------------------
